@@ -76,7 +76,8 @@ class Ownership(Machine):
                        "scribble_sparse", "scribble_label_masks", "scribble_texture", "scribble_template",
                        "edit_value_after_assign", "edit_stored_group", "copy_pair_static_sharing_checked",
                        "mutator_on_copy", "transform_owner", "non_pointcloud_value_rejected", "copy_of_copy",
-                       "apply_on_copy_pair", "apply_repeated_after_other_activity")
+                       "apply_on_copy_pair", "apply_repeated_after_other_activity", "alignment_parameter_update",
+                       "own_group_stored_under_second_name")
 
     @classmethod
     def swarm(cls, rng, tier):
@@ -223,6 +224,27 @@ class Ownership(Machine):
                 ctx.probe("non_pointcloud_value_rejected")
                 ctx.ok()
             return ()
+        if how == 4 and tgt.groups:
+            # the rename idiom: store one of the manager's OWN groups under another name (and keep the old one)
+            m = self._mgr(tgt)
+            src_name = list(tgt.groups)[op["j"] % len(tgt.groups)]
+            name = NAMES[op["name"] % len(NAMES)]
+            if name == src_name:
+                return
+            try:
+                m[name] = m[src_name]
+            except Exception as ex:
+                ctx.fail("manager", "set_raised", "manager[%r] = manager[%r] raised %r" % (name, src_name, ex))
+                return ()
+            ctx.probe("own_group_stored_under_second_name")
+            if name in tgt.groups:
+                now = list(m.group_labels)
+                new = OrderedDict()
+                for n_ in now:
+                    new[n_] = tgt.groups.get(n_)
+                tgt.groups = new
+            tgt.groups[name] = tgt.groups[src_name]
+            return (tgt,)
         val = self._pick(("value", "owner"), op["j"])
         if val is None or val.obj is tgt.obj or val.kind in gen.IMAGE_KINDS:
             return
@@ -407,13 +429,23 @@ class Ownership(Machine):
         self._put(cell, op["dst"])
         return ()
 
+    def _dims_consistent(self, obj, depth=0):
+        """Every landmark group (recursively: groups may carry landmarks themselves) has the dimensionality of
+        the object it is attached to; otherwise transforming the owner cannot work and is not attempted."""
+        if depth > 6 or not getattr(obj, "has_landmarks", False):
+            return True
+        for nm in obj.landmarks.group_labels:
+            g = obj.landmarks[nm]
+            if g.n_dims != obj.n_dims or not self._dims_consistent(g, depth + 1):
+                return False
+        return True
+
     def _op_transform(self, op):
         ctx = self.ctx
         owner = self._pick(("owner", "value"), op["i"])
         if owner is None or owner.kind in gen.IMAGE_KINDS:
             return
-        m0 = owner.obj.landmarks
-        if m0.n_groups and m0.n_dims != owner.obj.n_dims:
+        if not self._dims_consistent(owner.obj):
             return   # the manager does not compare its groups with the owner's own dimensionality (not claimed)
         t = gen.homog_transform(["Affine", "Similarity", "Translation", "Rotation"][op["how"] % 4], op["seed"], owner.d)
         try:
@@ -476,7 +508,12 @@ class Ownership(Machine):
 
     def _mutate(self, o, op, g):
         x = o.obj
-        if isinstance(x, Alignment):
+        if isinstance(x, Alignment) and (op["seed"] % 3 == 0) and hasattr(x, "from_vector_inplace"):
+            # a parameter update is a public mutator too (it re-syncs the target from the new state)
+            v = np.array(x.as_vector(), dtype=float)
+            x.from_vector_inplace(v * 1.03 + 0.01)
+            self.ctx.probe("alignment_parameter_update")
+        elif isinstance(x, Alignment):
             n, d = x.target.n_points, x.target.n_dims
             x.set_target(PointCloud(np.asarray(x.target.points) + g.randn(n, d) * 0.1))
         elif isinstance(x, PCAVectorModel):
